@@ -13,6 +13,9 @@ FEATURES = [
     "-DHAVE_MLOCK", "-DHAVE_PATHCONF", "-DHAVE_POSIX_FADVISE", "-DHAVE_REALPATH", "-DHAVE_SYSCONF",
 ]
 SAN = ["-O1", "-g", "-fsanitize=address,undefined", "-fno-sanitize-recover=all", "-fno-omit-frame-pointer"]
+# VERIF_COV=<dir>: measure which lines of the zix sources the correspondence runs execute (gen/kcoverage.py); not used by the checks
+COV_DIR = os.environ.get("VERIF_COV")
+if COV_DIR: SAN = SAN + ["--coverage", "-fprofile-update=atomic"]
 GUARD = "-DZIX_VERIF"
 
 TRUSTED_BASE_COMMON = [
@@ -486,6 +489,10 @@ class Check:
         return out
 
     def finish(self):
+        if COV_DIR:
+            # keep the compiler's notes and the run-time counts of this check for gen/kcoverage.py
+            dst = os.path.join(COV_DIR, os.path.basename(self.work)); os.makedirs(dst, exist_ok=True)
+            for f in glob.glob(os.path.join(self.work, "*.gc*")): shutil.copy(f, dst)
         shutil.rmtree(self.work, ignore_errors=True)
         try: os.rmdir(os.path.join(VERIF, ".work"))
         except OSError: pass
